@@ -101,24 +101,24 @@ def delOf : Queue.Out → List FW
   | .batch b => [FW.qdel b]
   | _ => []
 
-theorem produce_ask (c : Cfg) (n : Node) (ex : ExecResp) (h : asksSequencer c n = true) :
-    produce c n ex =
+theorem produce_ask (c : Cfg) (n : Node) (ex : ExecResp) (clk : Clock) (h : asksSequencer c n = true) :
+    produce c n ex clk =
       ({ n with prod := (publish c.p n.prod (.batch (batchOf (Queue.getNext key c.qc n.q c.qc.id).2)
-                    (c.p.genesisTime + (n.tick + 1) * 1000) []) ex).1,
+                    (stamp c n clk) []) ex).1,
                 q := (Queue.getNext key c.qc n.q c.qc.id).1, tick := n.tick + 1 },
        delOf (Queue.getNext key c.qc n.q c.qc.id).2 ++
          (publish c.p n.prod (.batch (batchOf (Queue.getNext key c.qc n.q c.qc.id).2)
-                    (c.p.genesisTime + (n.tick + 1) * 1000) []) ex).2.1.map FW.st,
+                    (stamp c n clk) []) ex).2.1.map FW.st,
        (publish c.p n.prod (.batch (batchOf (Queue.getNext key c.qc n.q c.qc.id).2)
-                    (c.p.genesisTime + (n.tick + 1) * 1000) []) ex).2.2) := by
+                    (stamp c n clk) []) ex).2.2) := by
   unfold produce
   simp only [h, ↓reduceIte]
   generalize Queue.getNext key c.qc n.q c.qc.id = r
   obtain ⟨q', out⟩ := r
   cases out <;> rfl
 
-theorem produce_noask (c : Cfg) (n : Node) (ex : ExecResp) (h : asksSequencer c n = false) :
-    produce c n ex =
+theorem produce_noask (c : Cfg) (n : Node) (ex : ExecResp) (clk : Clock) (h : asksSequencer c n = false) :
+    produce c n ex clk =
       ({ n with prod := (publish c.p n.prod .absent ex).1, tick := n.tick + 1 },
        (publish c.p n.prod .absent ex).2.1.map FW.st, (publish c.p n.prod .absent ex).2.2) := by
   unfold produce
@@ -134,16 +134,27 @@ theorem lastTime_le {c : Cfg} {P : Producer.Node} {t : Nat} (hi : Inv c.p P) (ht
     have := (hi.tipGen (by omega)).2
     unfold bound; omega
 
+/-- a clock that did not step backwards stamps the answer not before the last block and not after the clock bound -/
+theorem stamp_ok {c : Cfg} {n : Node} {clk : Clock} (hclk : clk ≠ .back) (hi : Inv c.p n.prod)
+    (htb : TimeBound (bound c n.tick) n.prod.store) :
+    n.prod.lastState.lastTime ≤ stamp c n clk ∧ stamp c n clk ≤ bound c (n.tick + 1) := by
+  have h1 := lastTime_le (c := c) hi htb
+  have h2 : bound c n.tick ≤ bound c (n.tick + 1) := by unfold bound; omega
+  cases clk with
+  | real => exact ⟨Nat.le_trans h1 h2, Nat.le_refl _⟩
+  | same => exact ⟨Nat.le_refl _, Nat.le_trans h1 h2⟩
+  | back => exact absurd rfl hclk
+
 /-- **summary of one production step** from a node whose producer part satisfies the production invariant, is in
 sync with its store, and holds no block stamped after the clock: the store writes `sws` (after at most one queue
 delete), the producer afterwards, and the durable view at every crash point `j` of the store writes -/
 theorem produce_cases {c : Cfg} {n : Node} (hsg : c.p.signerAddr = c.p.proposerAddr)
     (hl : Live c.p n.prod) (hs : Synced c.p n.prod) (hw : WmOK n.prod.store)
     (hfe : n.prod.store.state = none → blockTxs n.prod.store c.p.initialHeight = [])
-    (htb : TimeBound (bound c n.tick) n.prod.store) (ex : ExecResp) :
+    (htb : TimeBound (bound c n.tick) n.prod.store) (ex : ExecResp) (clk : Clock) (hclk : clk ≠ .back) :
     ∃ (P' : Producer.Node) (sws : List SW) (pre : List FW) (q' : Queue.St) (T : List Bytes),
-      (produce c n ex).1 = { n with prod := P', q := q', tick := n.tick + 1 } ∧
-      (produce c n ex).2.1 = pre ++ sws.map FW.st ∧
+      (produce c n ex clk).1 = { n with prod := P', q := q', tick := n.tick + 1 } ∧
+      (produce c n ex clk).2.1 = pre ++ sws.map FW.st ∧
       P'.store = n.prod.store.applyAll sws ∧ Live c.p P' ∧ Synced c.p P' ∧ WmOK P'.store ∧
       (∀ j, DInv c.p (n.prod.store.applyAll (sws.take j))) ∧
       (∀ w ∈ sws, WTime (bound c (n.tick + 1)) w) ∧
@@ -209,18 +220,17 @@ theorem produce_cases {c : Cfg} {n : Node} (hsg : c.p.signerAddr = c.p.proposerA
     unfold asksSequencer at hask'
     simp only [Bool.and_eq_true, Bool.not_eq_true', Option.isNone_iff_eq_none] at hask'
     obtain ⟨⟨hnr, hprev⟩, hnone⟩ := hask'
-    rw [produce_ask c n ex hask]
-    have hτ : n.prod.lastState.lastTime ≤ c.p.genesisTime + (n.tick + 1) * 1000 := by
-      exact Nat.le_trans (lastTime_le (c := c) hi htb) hbb
+    rw [produce_ask c n ex clk hask]
+    obtain ⟨hτ, hτ2⟩ := stamp_ok hclk hi htb
     have hpendNil : durPend c.p n.prod.store = [] := by
       unfold durPend blockTxs; rw [hH, hnone]
     have fresh : ∀ T,
-        (∀ w ∈ (publish c.p n.prod (.batch T (c.p.genesisTime + (n.tick + 1) * 1000) []) ex).2.1, WTime (bound c (n.tick + 1)) w) ∧
-        2 ≤ (publish c.p n.prod (.batch T (c.p.genesisTime + (n.tick + 1) * 1000) []) ex).2.1.length ∧
-        (∀ j, j ≤ 1 → durAll c.p (n.prod.store.applyAll ((publish c.p n.prod (.batch T (c.p.genesisTime + (n.tick + 1) * 1000) []) ex).2.1.take j)) = durAll c.p n.prod.store) ∧
-        (∀ j, 2 ≤ j → durAll c.p (n.prod.store.applyAll ((publish c.p n.prod (.batch T (c.p.genesisTime + (n.tick + 1) * 1000) []) ex).2.1.take j)) = durAll c.p n.prod.store ++ T) ∧
-        (∀ j, (n.prod.store.applyAll ((publish c.p n.prod (.batch T (c.p.genesisTime + (n.tick + 1) * 1000) []) ex).2.1.take j)).state = none →
-          blockTxs (n.prod.store.applyAll ((publish c.p n.prod (.batch T (c.p.genesisTime + (n.tick + 1) * 1000) []) ex).2.1.take j)) c.p.initialHeight = []) := by
+        (∀ w ∈ (publish c.p n.prod (.batch T (stamp c n clk) []) ex).2.1, WTime (bound c (n.tick + 1)) w) ∧
+        2 ≤ (publish c.p n.prod (.batch T (stamp c n clk) []) ex).2.1.length ∧
+        (∀ j, j ≤ 1 → durAll c.p (n.prod.store.applyAll ((publish c.p n.prod (.batch T (stamp c n clk) []) ex).2.1.take j)) = durAll c.p n.prod.store) ∧
+        (∀ j, 2 ≤ j → durAll c.p (n.prod.store.applyAll ((publish c.p n.prod (.batch T (stamp c n clk) []) ex).2.1.take j)) = durAll c.p n.prod.store ++ T) ∧
+        (∀ j, (n.prod.store.applyAll ((publish c.p n.prod (.batch T (stamp c n clk) []) ex).2.1.take j)).state = none →
+          blockTxs (n.prod.store.applyAll ((publish c.p n.prod (.batch T (stamp c n clk) []) ex).2.1.take j)) c.p.initialHeight = []) := by
       intro T
       obtain ⟨v, eb, e1, e2, hsh, _⟩ := (publish_tx hi hsg T _ hτ ex).2 hnone hnr hprev
       -- with no state saved a block is stored at the initial height: impossible here
@@ -245,7 +255,7 @@ theorem produce_cases {c : Cfg} {n : Node} (hsg : c.p.signerAddr = c.p.proposerA
         refine ⟨fun j hj => (fresh_cuts hH hpendNil hab e1 tail ht j).1 hj,
           fun j hj => (fresh_cuts hH hpendNil hab e1 tail ht j).2.1 hj, fun j hn => ?_⟩
         exact absurd ((fresh_cuts hH hpendNil hab e1 tail ht j).2.2 hn) hstate
-      have hts : bound c (n.tick + 1) = c.p.genesisTime + (n.tick + 1) * 1000 := rfl
+      have hts : stamp c n clk ≤ bound c (n.tick + 1) := hτ2
       rcases hsh with hsh | ⟨_, fb, st, f1, f2, f3, hsh⟩
       · rw [hsh]
         obtain ⟨t1, t2, t3⟩ := htail [] (Or.inl rfl)
@@ -254,7 +264,7 @@ theorem produce_cases {c : Cfg} {n : Node} (hsg : c.p.signerAddr = c.p.proposerA
         simp only [List.mem_cons, List.mem_nil_iff, or_false] at hw'
         rcases hw' with rfl | rfl
         · trivial
-        · show eb.sh.hdr.time ≤ _; rw [e2, hts]; exact Nat.le_refl _
+        · show eb.sh.hdr.time ≤ _; rw [e2]; exact hts
       · rw [hsh]
         obtain ⟨t1, t2, t3⟩ := htail _ (Or.inr ⟨fb, st, f1, f3, rfl⟩)
         refine ⟨?_, by simp [commit3], t1, t2, t3⟩
@@ -262,8 +272,8 @@ theorem produce_cases {c : Cfg} {n : Node} (hsg : c.p.signerAddr = c.p.proposerA
         simp only [commit3, List.cons_append, List.nil_append, List.mem_cons, List.mem_nil_iff, or_false] at hw'
         rcases hw' with rfl | rfl | rfl | rfl | rfl
         · trivial
-        · show eb.sh.hdr.time ≤ _; rw [e2, hts]; exact Nat.le_refl _
-        · show fb.sh.hdr.time ≤ _; rw [f2, hts]; exact Nat.le_refl _
+        · show eb.sh.hdr.time ≤ _; rw [e2]; exact hts
+        · show fb.sh.hdr.time ≤ _; rw [f2]; exact hts
         · trivial
         · trivial
     rcases Queue.getNext_cases key c.qc n.q c.qc.id with ⟨o, hg, ho⟩ | ⟨b, rest, hg, hm⟩
@@ -272,16 +282,16 @@ theorem produce_cases {c : Cfg} {n : Node} (hsg : c.p.signerAddr = c.p.proposerA
       have hd0 : delOf o = [] := by rcases ho with rfl | rfl <;> rfl
       rw [hg]
       simp only [hb0, hd0]
-      obtain ⟨c1, c2, c3, c4, c5⟩ := common (.batch [] (c.p.genesisTime + (n.tick + 1) * 1000) [])
+      obtain ⟨c1, c2, c3, c4, c5⟩ := common (.batch [] (stamp c n clk) [])
       obtain ⟨f1, _, f3, f4, f5⟩ := fresh []
       exact ⟨_, _, [], n.q, [], rfl, rfl, c1, c2, c3, c4, c5, f1, Or.inl ⟨rfl, rfl, rfl⟩, f3, f4, f5⟩
     · rw [hg]
       simp only [batchOf, delOf]
-      obtain ⟨c1, c2, c3, c4, c5⟩ := common (.batch b (c.p.genesisTime + (n.tick + 1) * 1000) [])
+      obtain ⟨c1, c2, c3, c4, c5⟩ := common (.batch b (stamp c n clk) [])
       obtain ⟨f1, f2, f3, f4, f5⟩ := fresh b
       exact ⟨_, _, [FW.qdel b], _, b, rfl, rfl, c1, c2, c3, c4, c5, f1, Or.inr ⟨b, rest, rfl, hm, rfl, rfl, f2⟩, f3, f4, f5⟩
   · have hask' : asksSequencer c n = false := by simpa using hask
-    rw [produce_noask c n ex hask']
+    rw [produce_noask c n ex clk hask']
     obtain ⟨c1, c2, c3, c4, c5⟩ := common .absent
     cases hpb : n.prod.store.getBlock (n.prod.store.height + 1) with
     | none =>
